@@ -100,7 +100,7 @@ def killTasks (s : Sys) (jo : JobObj) : List Task :=
   adoptUnrecordedTasks s jo (tasksForRefs s jo jo.job.status.tasks)
 
 theorem killTasks_mem {s : Sys} {jo : JobObj} (hc : s.podCache = s.pods) (hp : KPods jo s) {t : Task}
-    (h : t ∈ killTasks s jo) : ∃ p ∈ s.pods, podTask p = some t := by
+    (h : t ∈ killTasks s jo) : ∃ p ∈ s.pods, podTask s.clock p = some t := by
   unfold killTasks adoptUnrecordedTasks at h
   rcases List.mem_append.mp h with h | h
   · rw [tasksForRefs_fresh hc (fun p hp' => (hp.owned p hp').1)] at h
@@ -113,7 +113,7 @@ theorem killTasks_mem {s : Sys} {jo : JobObj} (hc : s.podCache = s.pods) (hp : K
     exact ⟨p, this, hpt⟩
 
 theorem killTasks_cover {s : Sys} {jo : JobObj} (hc : s.podCache = s.pods) (hp : KPods jo s) {p : PodObj}
-    (hpm : p ∈ s.pods) : ∃ t ∈ killTasks s jo, podTask p = some t := by
+    (hpm : p ∈ s.pods) : ∃ t ∈ killTasks s jo, podTask s.clock p = some t := by
   obtain ⟨t, ht⟩ := podTask_of_noPanic (hp.sane p hpm).1
   refine ⟨t, ?_, ht⟩
   unfold killTasks adoptUnrecordedTasks
@@ -151,7 +151,7 @@ theorem killTasks_cover {s : Sys} {jo : JobObj} (hc : s.podCache = s.pods) (hp :
 
 /-- facts about a listed task from its pod -/
 theorem killTasks_facts {s : Sys} {jo : JobObj} (hc : s.podCache = s.pods) (hp : KPods jo s) {t : Task}
-    (h : t ∈ killTasks s jo) : ∃ p ∈ s.pods, podTask p = some t ∧ t.name = p.pod.name ∧
+    (h : t ∈ killTasks s jo) : ∃ p ∈ s.pods, podTask s.clock p = some t ∧ t.name = p.pod.name ∧
       t.deletionTimestamp = p.pod.deletionTimestamp ∧ isTaskFinished t = p.pod.isFinished := by
   obtain ⟨p, hpm, hpt⟩ := killTasks_mem hc hp h
   have hf := podTask_fields hpt
